@@ -53,6 +53,8 @@ def tot (p : Nat → Bool) (s : St) : Nat := mu p s.newL + mu p s.active + mu p 
 def isA (a : Nat) : Nat → Bool := fun x => x == a
 def allA : Nat → Bool := fun _ => true
 
+theorem mu_all (l : List Conn) : mu allA l = l.length := mu_true l
+
 /-- faults that the counting invariant excludes -/
 def CountFaultFree (f : Option Fault) : Prop := f ≠ some .ipDelZero ∧ f ≠ some .connUnderflow
 
